@@ -402,6 +402,14 @@ func symBinop(op token.Token, t types.Type, x, y value) value {
 			}
 		}
 		arith := func(fop, bop string) value {
+			// x + (-0) = x - (-0) = x and (-0) + x = x for every x that is not itself -0, which an exactly
+			// converted integer never is: the identity keeps the integer origin
+			if yf, ok := y.(float64); ok && yf == 0 && math.Signbit(yf) && a.origin != nil {
+				return a
+			}
+			if xf, ok := x.(float64); ok && xf == 0 && math.Signbit(xf) && b.origin != nil && fop == "fp.add" {
+				return b
+			}
 			r := &sym{e: "(" + fop + " RNE " + a.e + " " + b.e + ")", k: symFP}
 			if a.origin != nil && b.origin != nil {
 				ow := a.ow
